@@ -4,6 +4,10 @@ go 1.26
 
 require github.com/vapourismo/knx-go v0.0.0
 
-require golang.org/x/text v0.14.0 // indirect
+require (
+	golang.org/x/net v0.23.0 // indirect
+	golang.org/x/sys v0.18.0 // indirect
+	golang.org/x/text v0.14.0 // indirect
+)
 
 replace github.com/vapourismo/knx-go => /repo
